@@ -31,7 +31,7 @@ func gen(r *harn.Rng, tier string) interface{} {
 	}
 	switch r.Intn(10) {
 	case 0:
-		sc.Chance = r.Pick(-5, 0, 100, 101, 250)
+		sc.Chance = r.Pick(-5, 0, 100, 101, 250, 1<<32, 1<<40, 1<<40+50, 1<<63-1, -1<<62)
 	case 1:
 		sc.Chance = r.Pick(1, 2, 50, 98, 99)
 	default:
